@@ -469,11 +469,23 @@ static void output_to_column(size_t column, bool allow_tabs)
 }
 
 
+//! whether the comment being written belongs to a preprocessor directive (set by output_cmt_start())
+static bool cmt_in_preproc = false;
+
+
 static void cmt_output_indent(size_t brace_col, size_t base_col, size_t column)
 {
    log_rule_B("indent_cmt_with_tabs");
+   // a comment inside a directive follows pp_indent_with_tabs like the code around it
+   int with_tabs = options::indent_with_tabs();
+
+   if (  cmt_in_preproc
+      && options::pp_indent_with_tabs() != -1)
+   {
+      with_tabs = options::pp_indent_with_tabs();
+   }
    // indent_with_tabs=0 means "spaces only", whatever indent_cmt_with_tabs says
-   size_t iwt = (options::indent_with_tabs() == 0) ? 0 :
+   size_t iwt = (with_tabs == 0) ? 0 :
                 (options::indent_cmt_with_tabs() ? 2 : 1);
 
    size_t tab_col = (iwt == 0) ? 0 : ((iwt == 1) ? brace_col : base_col);
@@ -1053,7 +1065,7 @@ void output_text(FILE *pfile)
                          || (  !pc->IsPreproc()
                             && options::indent_with_tabs() == 2)
                          || (  pc->IsComment()
-                            && options::indent_with_tabs() != 0);
+                            && (pc->IsPreproc() ? pp_indent_with_tabs : options::indent_with_tabs()) != 0);
 
             LOG_FMT(LOUTIND, "%s(%d): orig line is %zu, column is %zu, column indent is %zu, cpd.column is %zu\n",
                     __func__, __LINE__, pc->GetOrigLine(), pc->GetColumn(), pc->GetColumnIndent(), cpd.column);
@@ -1790,6 +1802,7 @@ static void add_comment_text(const UncText &text,
 static void output_cmt_start(cmt_reflow &cmt, Chunk *pc)
 {
    cmt.pc          = pc;
+   cmt_in_preproc  = pc->IsPreproc();
    cmt.column      = pc->GetColumn();
    cmt.brace_col   = pc->GetColumnIndent();
    cmt.base_col    = pc->GetColumnIndent();
